@@ -7,6 +7,7 @@ result is bit-identical to the C++ side:
 * `uni`   — unicycle on SE(2): state (x, y, yaw), control (v, ω); the heading is wrapped by
             `SO2StateSpace::enforceBounds` after every step (bounded heading).
 * `dint`  — double integrator: state (x, y, vx, vy), control (ax, ay) with asymmetric bounds.
+* `car`   — kinematic car (wheel base 1) on SE(2), control (v, steering angle), one explicit Euler step per call.
 
 Also the state-space pieces the planner model needs: `satisfiesBounds` (RealVector with the
 `numeric_limits<double>::epsilon()` slack; SO(2) `[-π, π)`), box obstacles over (x, y) (closed boxes,
@@ -18,7 +19,7 @@ namespace OmplModel.ControlSys
 open OmplModel
 
 inductive Kind where
-  | point | uni | dint
+  | point | uni | dint | car
 deriving Repr, DecidableEq
 
 structure Cfg (α : Type) where
@@ -37,11 +38,13 @@ def Kind.nb : Kind → Nat
   | .point => 2
   | .uni => 2
   | .dint => 4
+  | .car => 2
 
 def Kind.nreals : Kind → Nat
   | .point => 2
   | .uni => 3
   | .dint => 4
+  | .car => 3
 
 @[inline] def g (a : Array α) (i : Nat) : α := a.getD i (Num.ofNat 0)
 
@@ -61,6 +64,9 @@ def step (k : Kind) (dt : α) (s u : Array α) : Array α :=
     #[g s 0 + g u 0 * Num.cos (g s 2) * dt, g s 1 + g u 0 * Num.sin (g s 2) * dt,
       wrapSO2 (g s 2 + g u 1 * dt)]
   | .dint => #[g s 0 + g s 2 * dt, g s 1 + g s 3 * dt, g s 2 + g u 0 * dt, g s 3 + g u 1 * dt]
+  | .car =>
+    #[g s 0 + g u 0 * Num.cos (g s 2) * dt, g s 1 + g u 0 * Num.sin (g s 2) * dt,
+      wrapSO2 (g s 2 + g u 0 * (Num.sin (g u 1) / Num.cos (g u 1)) * dt)]
 
 /-- `RealVectorStateSpace::satisfiesBounds` on the first `n` reals -/
 def rvInBounds (eps : α) (lo hi s : Array α) : Nat → Bool
@@ -70,7 +76,7 @@ def rvInBounds (eps : α) (lo hi s : Array α) : Nat → Bool
 def satisfiesBounds (c : Cfg α) (eps : α) (s : Array α) : Bool :=
   rvInBounds eps c.lo c.hi s c.kind.nb &&
     (match c.kind with
-     | .uni => decide (g s 2 < (Num.pi : α)) && decide (-(Num.pi : α) ≤ g s 2)
+     | .uni | .car => decide (g s 2 < (Num.pi : α)) && decide (-(Num.pi : α) ≤ g s 2)
      | _ => true)
 
 /-- `Env::collides` with pdim = 2: inside a closed box -/
@@ -98,7 +104,7 @@ def dist (k : Kind) (a b : Array α) : α :=
   match k with
   | .point => rvDist a b 2
   | .dint => rvDist a b 4
-  | .uni => Num.ofNat 0 + Num.ofNat 1 * rvDist a b 2 + Num.ofDec 5 1 * so2Dist (g a 2) (g b 2)
+  | .uni | .car => Num.ofNat 0 + Num.ofNat 1 * rvDist a b 2 + Num.ofDec 5 1 * so2Dist (g a 2) (g b 2)
 
 /-- `PosGoal::distanceGoal` and `GoalRegion::isSatisfied` (`d2g < threshold_`, strict) -/
 def goalDist (goal s : Array α) : α :=
@@ -106,9 +112,21 @@ def goalDist (goal s : Array α) : α :=
   let dy := g s 1 - g goal 1
   Num.sqrt (dx * dx + dy * dy)
 
-def goalTest (goal : Array α) (thr : α) (s : Array α) : Bool × α :=
-  let d := goalDist goal s
-  (decide (d < thr), d)
+/-- the three goal kinds of the harness: `pos` (sampleable region, L2 position distance), `pred` (a plain `ob::Goal`
+predicate: `Goal::isSatisfied(st, &d)` sets `d = numeric_limits<double>::max()`), `l1` (`GoalRegion` with `|dx| + |dy|`) -/
+inductive GoalKind where
+  | pos | pred | l1
+deriving Repr, DecidableEq
+
+def goalTest (k : GoalKind) (dblMax : α) (goal : Array α) (thr : α) (s : Array α) : Bool × α :=
+  match k with
+  | .pos =>
+    let d := goalDist goal s
+    (decide (d < thr), d)
+  | .pred => (decide (goalDist goal s < thr), dblMax)
+  | .l1 =>
+    let d := Num.abs (g s 0 - g goal 0) + Num.abs (g s 1 - g goal 1)
+    (decide (d < thr), d)
 
 /-- control within the control-space bounds -/
 def ctlInBounds (c : Cfg α) (u : Array α) : Bool :=
